@@ -65,6 +65,7 @@ use crate::l8_boxed_invmod::inv_mod_post;   // (also brings BoxedUint::set_bit /
 use core::cmp::Ordering;
 use vstd::std_specs::cmp::PartialEqSpec;
 use crate::l8_boxed_pow::*;
+pub use crate::l8_boxed_safegcd::{BoxedUnsatInt, BoxedSafeGcdInverter};   // (re-exported: the structs were declared here before)
 use crate::l8_boxed_lemmas::{lemma_p2_succ, lemma_p2_pos};
 
 // `#[derive(Debug)]` of /repo (not extracted); external to the verifier, needed only to type `debug_assert_eq!`
@@ -1948,18 +1949,7 @@ pub proof fn lemma_inv_repr(rv: int, t: int, r2: int, m: int, n: nat)
     lemma_mont_cancel(y * x, 1, m, n);
 }
 
-//@@ item src/modular/safegcd/boxed.rs | struct BoxedUnsatInt
-#[derive(Clone)]
-pub struct BoxedUnsatInt(pub Box<[u64]>);
-//@@ end
-//@@ item src/modular/safegcd/boxed.rs | struct BoxedSafeGcdInverter
-#[derive(Clone)]
-pub struct BoxedSafeGcdInverter {
-    pub modulus: BoxedUnsatInt,
-    pub adjuster: BoxedUnsatInt,
-    pub inverse: i64,
-}
-//@@ end
+// `struct BoxedUnsatInt` / `struct BoxedSafeGcdInverter` (src/modular/safegcd/boxed.rs): declared in l8_boxed_safegcd.rs
 //@@ item src/modular/boxed_monty_form/inv.rs | struct BoxedMontyFormInverter
 pub struct BoxedMontyFormInverter {
     pub inverter: BoxedSafeGcdInverter,
